@@ -217,10 +217,11 @@ Applicable(b, key) == {o \in b.ovr : Matches(o.m, key)}
 ChoiceOK(b, name, c, type) ==
   LET key == San(name)
       app == Applicable(b, key)
+      OfKind(k) == {o \in app : o.m.kind = k}
+      best == IF OfKind("full") # {} THEN "full" ELSE IF OfKind("prefix") # {} THEN "prefix" ELSE "suffix"
   IN /\ type = c.t
      /\ IF app # {}
-        THEN LET best == Min({Rank(o.m.kind) : o \in app})
-             IN c.t = "histogram" /\ \E o \in app : Rank(o.m.kind) = best /\ c.bounds = o.b
+        THEN c.t = "histogram" /\ \E o \in OfKind(best) : c.bounds = o.b
         ELSE IF b.global # <<>> THEN c.t = "histogram" /\ c.bounds = b.global
         ELSE c.t = "summary"
 InvChoiceLast == last.set => ChoiceOK(pb, last.name, last.choice, last.type)
@@ -419,8 +420,16 @@ InvRecView ==
   \A j \in DOMAIN rec.view :
      LET v == rec.view[j] IN
      /\ v.type = v.kind
-     /\ v.kind = "summary" => \E i \in DOMAIN rec.ser : rec.ser[i].name = v.name /\ SnapOK(rec.ser[i].dist, v.snap)
-     /\ v.kind = "histogram" => v.inf = v.count
+     /\ v.kind = "summary" =>           \* window as in SnapOK; _count and _sum cover every sample drained so far
+          \E i \in DOMAIN rec.ser :
+             LET dd == rec.ser[i].dist IN
+             /\ rec.ser[i].name = v.name /\ SnapOK(dd, v.snap)
+             /\ v.count = v.snap.upto
+             /\ v.sum = SumOf([k \in 1..v.snap.upto |-> dd.all[k].v])
+     /\ v.kind = "histogram" =>         \* +Inf = total, no bucket above it, le labels are the chosen bounds
+          /\ v.inf = v.count
+          /\ \A k \in DOMAIN v.counts : v.counts[k] <= v.inf
+          /\ Len(v.counts) = Len(v.les)
 InvRecTime == rec.mono
 
 (* ------------------------------------------------------------------------ *)
